@@ -32,9 +32,26 @@ Inductive c19case :=
 | KFromStr (s : bytes) (impl : obs_str)
 | KValid (i : N) (ip : N) (impl : bool)
 | KFromIp (seed : N) (ip : N) (impl : N)
-| KFromBytes (len : N) (impl_ok : bool).
+| KFromBytes (len : N) (impl_ok : bool)
+| KExempt16 (i : N) (seed : N) (impl : list N).   (* the /16 prefixes p for which both id i and i with its first bit
+                                                    flipped are reported valid at the address p.lo(p) *)
 
 Definition idN (x : N) : id := N_to_be 20 x.
+
+(* the sweep over all 65536 /16 prefixes: the address tried under prefix p, and the ids *)
+Definition sweep_ip (seed p : N) : N := p * 65536 + (p * 40503 + seed) mod 65536.
+Definition flip_first_bit (i : id) : id := match i with x :: l => N.lxor x 128 :: l | [] => [] end.
+Fixpoint nseq (n : nat) (start : N) : list N := match n with O => [] | S k => start :: nseq k (start + 1) end.
+Definition all_prefixes : list N := nseq (N.to_nat 65536) 0.
+(* two ids that differ in their first bit cannot both pass the CRC comparison (IdProofs.flipped_pair_valid_iff_exempt),
+   so both are valid exactly at the exempt addresses: the model's list needs no CRC *)
+Definition model_exempt16 (seed : N) : list N := filter (fun p => ip_exempt (sweep_ip seed p)) all_prefixes.
+(* the reference: private (10/8, 172.16/12, 192.168/16), loopback (127/8), link-local (169.254/16), by the octets *)
+Definition spec_exempt16 (p : N) : bool :=
+  let a := p / 256 in let b := p mod 256 in
+  (a =? 10) || (a =? 127) || ((a =? 172) && (16 <=? b) && (b <=? 31)) || ((a =? 192) && (b =? 168)) || ((a =? 169) && (b =? 254)).
+Fixpoint list_N_eqb (a b : list N) : bool :=
+  match a, b with [] , [] => true | x :: a', y :: b' => (x =? y) && list_N_eqb a' b' | _, _ => false end.
 
 Definition cmp_eqb (a b : comparison) : bool :=
   match a, b with Eq, Eq | Lt, Lt | Gt, Gt => true | _, _ => false end.
@@ -72,6 +89,9 @@ Definition check19 (c : c19case) : list N :=
        | _ => if ok then [1] else []
        end) ++
       (if Bool.eqb ok (len =? 20) then [] else [2])
+  | KExempt16 _ seed impl =>
+      (if list_N_eqb (model_exempt16 seed) impl then [] else [1]) ++
+      (if list_N_eqb (filter spec_exempt16 all_prefixes) impl then [] else [2])
   end.
 
 Fixpoint run19 (k : N) (cs : list c19case) : list (N * N) :=
